@@ -1112,6 +1112,321 @@ func stickyFail(p *core.Prog, r *core.Result, in map[string]bool) {
 		}
 	}
 	r.Floor("push_mode_entry_points", n, 3)
+	failParks(p, r, in)
+}
+
+// ---- (g2) FAIL-PARKS (every entry point that feeds the machine) ----
+//
+// The same holds for every way into the machine, not only Write: an error of
+// the dispatcher (a visitor error, malformed input) leaves the machine in the
+// middle of the failed document, and a caller that goes on - the next Next of
+// a pull decoder, a Write after a failed Parse, the next Parse of the binary
+// parsers, which do not reset - resumes that document: the visitor that just
+// failed gets further, mis-framed events, and the stacks the failed step left
+// half updated are used again (cborl: a length entry of -1 sizes a slice).
+// Decided as: the dispatcher parks the machine on every failing return, or
+// else every exported function that can return the dispatcher's error does so
+// only after parking. Unexported helpers that hand the error on pass the
+// obligation to their callers.
+
+type fpState struct {
+	parked        bool
+	feedErr       valueSet // values that are the error of a not-parking feed call
+	nonnil, isnil valueSet
+	feMem, nilMem stringSet // fields holding such an error / known to hold nil
+}
+type fpClient struct {
+	p       *core.Prog
+	fn      *ssa.Function
+	num     *valueNumbering
+	failVal int64
+	family  map[*ssa.Function]bool // returns the dispatcher's error without parking
+	bad     string
+	leaks   bool // some return may carry an un-parked dispatcher error
+	own     bool // fn is the dispatcher: every error it returns counts
+	anyCall bool // end-of-input check: the error of any call (a visitor event, a helper that delivers events) counts
+	// the named type of the failure-state constant (nil if it is a plain integer type): a branch on
+	// <state field> == <failure state> establishes that the machine is parked already
+	failType types.Type
+}
+
+func (k *fpClient) Key(s fpState) string {
+	return fmt.Sprintf("%v|%s|%s|%s|%s|%s", s.parked, s.feedErr.key(), s.nonnil.key(), s.isnil.key(), s.feMem.key(), s.nilMem.key())
+}
+func (k *fpClient) Phis(s fpState, blk *ssa.BasicBlock, pred int) fpState {
+	type upd struct {
+		id            int
+		fe, nn, isnil bool
+	}
+	var ups []upd
+	for _, in := range blk.Instrs {
+		phi, ok := in.(*ssa.Phi)
+		if !ok {
+			break
+		}
+		if pred < 0 || pred >= len(phi.Edges) {
+			continue
+		}
+		e := phi.Edges[pred]
+		id := k.num.id(e)
+		ups = append(ups, upd{k.num.id(phi), s.feedErr.has(id), s.nonnil.has(id) || definitelyNonNilError(e), s.isnil.has(id) || isNilConst(e)})
+	}
+	set := func(vs valueSet, id int, on bool) valueSet {
+		if on {
+			return vs.with(id)
+		}
+		return vs.without(id)
+	}
+	for _, u := range ups {
+		s.feedErr, s.nonnil, s.isnil = set(s.feedErr, u.id, u.fe), set(s.nonnil, u.id, u.nn), set(s.isnil, u.id, u.isnil)
+	}
+	return s
+}
+func (k *fpClient) isFailValue(v ssa.Value, depth int) bool {
+	if depth > 4 {
+		return false
+	}
+	if c, ok := constIntVal(v); ok {
+		return c == k.failVal
+	}
+	if ld, ok := v.(*ssa.UnOp); ok && ld.Op == token.MUL {
+		if a, ok := ld.X.(*ssa.Alloc); ok {
+			for _, sv := range storedInto(a) {
+				if k.isFailValue(sv, depth+1) {
+					return true
+				}
+			}
+		}
+	}
+	return false
+}
+func (k *fpClient) Instr(s fpState, in ssa.Instruction) (fpState, bool, []fpState) {
+	switch x := in.(type) {
+	case *ssa.Store:
+		if len(k.fn.Params) > 0 && rootedAt(x.Addr, k.fn.Params[0]) && k.isFailValue(x.Val, 0) {
+			s.parked = true
+		}
+		if ak := addrKey(x.Addr); ak != "" && isErrorType(x.Val.Type()) {
+			s.feMem, s.nilMem = s.feMem.without(ak), s.nilMem.without(ak)
+			if s.feedErr.has(k.num.id(x.Val)) {
+				s.feMem = s.feMem.with(ak)
+			}
+			if isNilConst(x.Val) || s.isnil.has(k.num.id(x.Val)) {
+				s.nilMem = s.nilMem.with(ak)
+			}
+		}
+	case *ssa.UnOp:
+		if x.Op == token.MUL && isErrorType(x.Type()) {
+			if ak := addrKey(x.X); ak != "" {
+				id := k.num.id(x)
+				s.feedErr, s.isnil = s.feedErr.without(id), s.isnil.without(id)
+				if s.feMem.has(ak) {
+					s.feedErr = s.feedErr.with(id)
+				}
+				if s.nilMem.has(ak) {
+					s.isnil = s.isnil.with(id)
+				}
+			}
+		}
+	case *ssa.Call:
+		sc := x.Common().StaticCallee()
+		if k.anyCall && !(sc != nil && k.family[sc]) {
+			if _, isB := x.Common().Value.(*ssa.Builtin); isB {
+				break
+			}
+			if isErrorType(x.Type()) {
+				s.feedErr = s.feedErr.with(k.num.id(x))
+			}
+			if refs := x.Referrers(); refs != nil {
+				for _, rf := range *refs {
+					if ex, ok := rf.(*ssa.Extract); ok && isErrorType(ex.Type()) {
+						s.feedErr = s.feedErr.with(k.num.id(ex))
+					}
+				}
+			}
+			break
+		}
+		if sc == nil || !k.family[sc] {
+			break
+		}
+		// a new attempt: what an earlier attempt parked does not cover this one
+		s.parked = false
+		ei := errResultIndex(sc.Signature)
+		if refs := x.Referrers(); refs != nil && ei >= 0 {
+			for _, rf := range *refs {
+				if ex, ok := rf.(*ssa.Extract); ok && ex.Index == ei {
+					s.feedErr = s.feedErr.with(k.num.id(ex))
+				}
+			}
+		}
+		if sc.Signature.Results().Len() == 1 && ei == 0 {
+			s.feedErr = s.feedErr.with(k.num.id(x))
+		}
+	}
+	return s, true, nil
+}
+func (k *fpClient) Branch(s fpState, cond ssa.Value, outcome bool) (fpState, bool) {
+	for {
+		u, ok := cond.(*ssa.UnOp)
+		if !ok || u.Op != token.NOT {
+			break
+		}
+		cond, outcome = u.X, !outcome
+	}
+	if bo, ok := cond.(*ssa.BinOp); ok && bo.Op == token.EQL && outcome && k.failType != nil && len(k.fn.Params) > 0 {
+		for _, pr := range [][2]ssa.Value{{bo.X, bo.Y}, {bo.Y, bo.X}} {
+			if c, ok := constIntVal(pr[1]); ok && c == k.failVal && types.Identical(pr[0].Type(), k.failType) {
+				if ld, ok := pr[0].(*ssa.UnOp); ok && ld.Op == token.MUL && rootedAt(ld.X, k.fn.Params[0]) {
+					s.parked = true
+				}
+			}
+		}
+	}
+	if x, trueMeansNil, ok := nilTest(cond); ok && isErrorType(x.Type()) {
+		id := k.num.id(x)
+		isNil := outcome == trueMeansNil
+		if isNil && (s.nonnil.has(id) || definitelyNonNilError(x)) || !isNil && s.isnil.has(id) {
+			return s, false
+		}
+		if isNil {
+			s.isnil = s.isnil.with(id)
+		} else {
+			s.nonnil = s.nonnil.with(id)
+		}
+		if ld, ok := x.(*ssa.UnOp); ok && ld.Op == token.MUL {
+			if ak := addrKey(ld.X); ak != "" {
+				if isNil {
+					s.nilMem = s.nilMem.with(ak)
+				} else {
+					s.nilMem = s.nilMem.without(ak)
+				}
+			}
+		}
+	}
+	return s, true
+}
+func (k *fpClient) Return(s fpState, ret *ssa.Return) {
+	ei := errResultIndex(k.fn.Signature)
+	if ei < 0 {
+		return
+	}
+	rv := ret.Results[ei]
+	id := k.num.id(rv)
+	if isNilConst(rv) || s.isnil.has(id) {
+		return
+	}
+	carries := s.feedErr.has(id)
+	if k.own {
+		carries = true
+	}
+	if carries && !s.parked {
+		k.leaks = true
+		if k.bad == "" {
+			k.bad = "can return the dispatcher's error at " + k.p.Pos(token.Pos(instrPos(ret))) + " without the machine having been parked in its failure state"
+		}
+	}
+}
+
+func failParks(p *core.Prog, r *core.Result, in map[string]bool) {
+	n := 0
+	for _, pk := range []string{"json", "cborl", "ubjson"} {
+		if !in[pk] {
+			continue
+		}
+		fam, err := buildFamily(p, pk)
+		nc := p.Const(pk, failStateConst[pk])
+		if err != nil || nc == nil {
+			r.Undecided(".FAIL-PARKS", pk, "dispatcher or failure-state constant not found")
+			continue
+		}
+		fv, ok := constIntVal(nc.Value)
+		if !ok {
+			continue
+		}
+		var failType types.Type
+		if _, isNamed := nc.Type().(*types.Named); isNamed {
+			failType = nc.Type()
+		}
+		run := func(f *ssa.Function, family map[*ssa.Function]bool, own bool) (*fpClient, bool) {
+			k := &fpClient{p: p, fn: f, num: newNumbering(), failVal: fv, family: family, own: own, failType: failType}
+			_, capped := WalkPaths[fpState](k, f.Blocks[0], 0, fpState{}, 200000, nil)
+			return k, capped
+		}
+		// the end-of-input check may deliver events of its own (a pending number, containers that need no more
+		// input): a visitor error there parks the machine as well
+		if fin := p.LookupFunc(pk, "(*Parser).finalize"); fin != nil {
+			k := &fpClient{p: p, fn: fin, num: newNumbering(), failVal: fv, family: map[*ssa.Function]bool{}, anyCall: true}
+			_, capped := WalkPaths[fpState](k, fin.Blocks[0], 0, fpState{}, 200000, nil)
+			n++
+			switch {
+			case capped:
+				r.Undecided(".FAIL-PARKS", core.FuncKey(fin), "state cap hit")
+			case !k.leaks:
+				r.Ok(".FAIL-PARKS", p.Pos(fin.Pos()), core.FuncKey(fin)+": an error of an event delivered at end of input is returned only after the machine was parked")
+			default:
+				r.Fail(".FAIL-PARKS", core.FuncKey(fin)+"|park", p.Pos(fin.Pos()), core.FuncKey(fin)+" "+strings.Replace(k.bad, "the dispatcher's error", "the error of an event it delivered at end of input", 1)+" ("+failStateConst[pk]+"): a caller that goes on (the next Next, a Write) gets the events of the failed document again", "")
+			}
+		}
+		fu := fam.feedUntil
+		k0, capped := run(fu, map[*ssa.Function]bool{}, true)
+		if capped {
+			r.Undecided(".FAIL-PARKS", core.FuncKey(fu), "state cap hit")
+			continue
+		}
+		if !k0.leaks {
+			n++
+			r.Ok(".FAIL-PARKS", p.Pos(fu.Pos()), core.FuncKey(fu)+": every failing return of the dispatcher is behind a store of "+failStateConst[pk]+": no entry point can resume a failed document")
+			continue
+		}
+		// the dispatcher does not park: everybody who can return its error must
+		family := map[*ssa.Function]bool{fu: true}
+		var pkgFuncs []*ssa.Function
+		for _, g := range p.ModFuncs() {
+			if gp := core.FuncPkg(g); gp != nil && gp.Name() == pk && g.Blocks != nil && g.Parent() == nil {
+				pkgFuncs = append(pkgFuncs, g)
+			}
+		}
+		sort.Slice(pkgFuncs, func(i, j int) bool { return pkgFuncs[i].Pos() < pkgFuncs[j].Pos() })
+		calls := func(g *ssa.Function) bool {
+			for _, b := range g.Blocks {
+				for _, i := range b.Instrs {
+					if c, ok := i.(*ssa.Call); ok && c.Common().StaticCallee() != nil && family[c.Common().StaticCallee()] {
+						return true
+					}
+				}
+			}
+			return false
+		}
+		for changed := true; changed; {
+			changed = false
+			for _, g := range pkgFuncs {
+				if family[g] || !calls(g) || (g.Object() != nil && g.Object().Exported()) {
+					continue
+				}
+				if k, capped := run(g, family, false); capped || k.leaks {
+					family[g] = true
+					changed = true
+				}
+			}
+		}
+		for _, g := range pkgFuncs {
+			if family[g] || !calls(g) {
+				continue
+			}
+			n++
+			k, capped := run(g, family, false)
+			gkey := core.FuncKey(g)
+			switch {
+			case capped:
+				r.Undecided(".FAIL-PARKS", gkey, "state cap hit")
+			case !k.leaks:
+				r.Ok(".FAIL-PARKS", p.Pos(g.Pos()), gkey+": the dispatcher's error is returned only after the machine was parked in "+failStateConst[pk])
+			default:
+				r.Fail(".FAIL-PARKS", gkey+"|park", p.Pos(g.Pos()), gkey+" "+k.bad+" ("+failStateConst[pk]+"): the machine stays in the middle of the failed document, and the next call on the same instance resumes it - the visitor that failed gets further, mis-framed events, and half-updated stacks are used again", "")
+			}
+		}
+	}
+	r.Floor("fail_parking_sites", n, 1)
 }
 
 // ---- (h) INDEX-TRANSLATION (json) ----
